@@ -438,12 +438,14 @@ def _check_state(run, holder, cfg, td, refs, t, phase, ep_i):
             _viol(run, name, "mask", "mask_width", f"row {r}: mask has {len(got)} entries, instance has "
                   f"{len(want)} items", tick=t, row=r, cfg=cfg, phase=phase)
         if got != want:
-            a = next(k for k in range(len(want)) if got[k] != want[k])
-            if got[a]:
-                f = ref.forbidden(a)
-                cons = ("offers_" + f) if f else "offers_chosen"
-            else:
-                cons = "hides_free"
+            offered = [k for k in range(len(want)) if got[k] and not want[k]]
+            if not offered:
+                # a free item being hidden is not what C08 states (that is C05 / C02 ground): observation
+                run.probe("obs:mask_hides_free")
+                continue
+            a = offered[0]
+            f = ref.forbidden(a)
+            cons = ("offers_" + f) if f else "offers_chosen"
             _viol(run, name, "mask", cons,
                   f"row {r} after {t} selections {ref.chosen}: mask[{a}]={got[a]} but item {a} is "
                   f"{'forbidden (' + ref.forbidden(a) + ')' if ref.forbidden(a) else ('already chosen' if a in ref.chosen else 'free and not chosen')}",
